@@ -102,6 +102,14 @@ def decEdgeRow (v : V) : Option EdgeRow :=
   | _ => none
 def encEdgeOut (r : EdgeRow) : V := .list [encF r.ampCons, encF r.perCons, encBool r.isBurst]
 
+def decShape (v : V) : Option ShapeRow :=
+  match v with
+  | .list [a, b, c, d, e, f, g, h, i, j, k, l, m] => do
+      let a ← a.int?; let b ← b.int?; let c ← c.int?; let d ← d.rat?; let e ← e.rat?; let f ← f.int?; let g ← g.int?
+      let h ← h.rat?; let i ← i.rat?; let j ← j.rat?; let k ← k.fval?; let l ← l.fval?; let m ← m.fval?
+      pure ⟨a, b, c, d, e, f, g, h, i, j, k, l, m⟩
+  | _ => none
+
 def handle (args : List V) : V :=
   match args with
   | [.atom "ping"] => .atom "pong"
@@ -341,6 +349,20 @@ def handle (args : List V) : V :=
       | .ok labels => .list [.atom "ok", encList encEdgeOut ((ed.zip labels).map fun (r, l) => { r with isBurst := l })]
       | .error e => encErr e
     | _, _, _ => bad "edges.spec"
+  -- C17
+  | [.atom "phase.model", n, pk, tr, ri, de] =>
+    match n.nat?, pk.listOf? V.nat?, tr.listOf? V.nat?, ri.opt? (V.listOf? V.nat?), de.opt? (V.listOf? V.nat?) with
+    | some n, some pk, some tr, some ri, some de => encExcept (encList encORat) (interpolatedPhase n pk tr ri de)
+    | _, _, _, _, _ => bad "phase.model"
+  | [.atom "phase.judge", n, pk, tr, ri, de, pha, eps] =>
+    match n.nat?, pk.listOf? V.nat?, tr.listOf? V.nat?, ri.opt? (V.listOf? V.nat?), de.opt? (V.listOf? V.nat?), pha.listOf? V.orat?, eps.rat? with
+    | some n, some pk, some tr, some ri, some de, some pha, some eps => encBool (phaseJudge n pk tr ri de pha eps)
+    | _, _, _, _, _, _, _ => bad "phase.judge"
+  -- C09: the generated renaming + flips applied to a peak-centred shape table
+  | [.atom "mirror.shape", rows] =>
+    match rows.listOf? decShape with
+    | some rows => encList encShape (rows.map fun r => Slots.flipShape (Slots.renameShape r))
+    | none => bad "mirror.shape"
   | _ => bad "unknown-command"
 
 partial def loop (hin : IO.FS.Stream) (hout : IO.FS.Stream) : IO Unit := do
